@@ -11,17 +11,18 @@ open Book
 structure StructOk (b : Book) : Prop where
   nonempty : 0 < b.size
   wf : WF b
+  sorted : SortedLinks b
   acyclic : Acyclic b
   root : (b.nd 0).depth = 0 ∧ (b.nd 0).parents = [] ∧ pe2 (b.nd 0) = (0, 0)
   depth : ∀ i, 0 < i → i < b.size → depthOk b i
   parity : ParityOk b
 
 theorem FixedPoint.struct {b : Book} (h : FixedPoint b) : StructOk b :=
-  ⟨h.nonempty, h.wf, h.acyclic, h.root, h.depth, h.parity⟩
+  ⟨h.nonempty, h.wf, h.sorted, h.acyclic, h.root, h.depth, h.parity⟩
 
 theorem FixedPoint.mk' {b : Book} (h : StructOk b) (hs : ∀ i, i < b.size → nmOk b i) (hp : ∀ i, i < b.size → peOk b i) :
     FixedPoint b :=
-  ⟨h.nonempty, h.wf, h.acyclic, h.root, h.depth, h.parity, hs, hp⟩
+  ⟨h.nonempty, h.wf, h.sorted, h.acyclic, h.root, h.depth, h.parity, hs, hp⟩
 
 /-- same size, and every node has the same links and depth; the root keeps its path errors -/
 structure SameStruct (b' b : Book) : Prop where
@@ -51,7 +52,8 @@ theorem Ranked.transfer {b' b : Book} {r : Nat → Nat} (h : SameStruct b' b) (h
     exact hr.mono i hi c hc
 
 theorem StructOk.transfer {b' b : Book} (h : SameStruct b' b) (hs : StructOk b) : StructOk b' := by
-  refine ⟨by rw [h.size]; exact hs.nonempty, hs.wf.transfer h, ?_, ?_, ?_, ?_⟩
+  refine ⟨by rw [h.size]; exact hs.nonempty, hs.wf.transfer h,
+    fun j => by rw [h.children j, h.parents j]; exact hs.sorted j, ?_, ?_, ?_, ?_⟩
   · obtain ⟨r, hr⟩ := hs.acyclic; exact ⟨r, hr.transfer h⟩
   · rw [h.depth 0, h.parents 0, h.rootpe]; exact hs.root
   · intro i h0 hi
